@@ -4,8 +4,9 @@ Technique: bounded-exhaustive enumeration (E-enum) of the real implementation ag
 only uses beancount's own data model (Inventory.add_position/add_amount/add_inventory/reduce,
 beancount.core.convert, prices.build_price_map) over a direct traversal of the loaded entries.
 
-Space     every bookable ledger of vt.ledgers12 (all sequences of <= n transactions over 8 templates:
-          cash USD, cash EUR, lot, second lot, partial sale, conversion @ price, expense, income; fixed
+Space     every bookable ledger of vt.ledgers12 (all sequences of <= n transactions over 9 templates:
+          cash USD, cash EUR, lot, second lot, partial sale, conversion @ price, expense, income, lot at
+          zero cost; fixed
           price schedule with terminating rates)
           x selections  WHERE in 8 filters (none, regex, equality, date, sign, always-false, NULL-producing,
                         NULL OR bool) x FROM expression in {none, has_account('Inv'), date < D}
@@ -13,7 +14,8 @@ Space     every bookable ledger of vt.ledgers12 (all sequences of <= n transacti
           x sum forms   sum(position), sum(units(position)), sum(cost(position)), sum(weight),
                         sum(balance), sum(units(balance)) (inventory-valued operands), and the nested
                         SELECT sum(s) FROM (SELECT key, sum(position) AS s ... GROUP BY key)
-          x functions f units, cost, value, value(.., date), convert(.., USD|EUR [, date])
+          x functions f units, cost, value, value(.., date), convert(.., USD|EUR [, date]), convert(.., 'usd'),
+                        convert(.., 'Eur', date) (target currency not in upper case)
           x balance     target lists mentioning `balance` 0, 1, 2, 3 times in varying positions, through
                         units()/cost(), with an intervening `account IN (SELECT account FROM postings
                         WHERE ...)` whose scan does / does not consult balance; `balance` in WHERE.
@@ -128,7 +130,14 @@ def functions(dates):
         ('value', lambda x: F('value', x), lambda pos, pm: convert.get_value(pos, pm, None)),
         ("convert-USD", lambda x: F('convert', x, C('USD')), lambda pos, pm: convert.convert_position(pos, 'USD', pm, None)),
         ("convert-EUR", lambda x: F('convert', x, C('EUR')), lambda pos, pm: convert.convert_position(pos, 'EUR', pm, None)),
+        # a target currency that is not spelled in upper case: the reference uses the argument as given
+        # (beancount then finds no rate: a consistent no-op on both sides of the law)
+        ("convert-usd", lambda x: F('convert', x, C('usd')), lambda pos, pm: convert.convert_position(pos, 'usd', pm, None)),
     ]
+    if dates:
+        d0 = dates[0]
+        fs.append((f'convert-Eur@{d0}', lambda x: F('convert', x, C('Eur'), C(d0)),
+                   lambda pos, pm: convert.convert_position(pos, 'Eur', pm, d0)))
     for d in dates:
         fs.append((f'value@{d}', lambda x, d=d: F('value', x, C(d)), lambda pos, pm, d=d: convert.get_value(pos, pm, d)))
         fs.append((f'convert-USD@{d}', lambda x, d=d: F('convert', x, C('USD'), C(d)),
